@@ -237,7 +237,8 @@ pub fn verify_authenticate(account: &Account, negotiate: &[u8], challenge_bytes:
         return Err(format!("identity: DomainName field {:02x?} is not the account's domain {:?}", a.domain, account.domain));
     }
     for needed in [NEG_KEY_EXCH, NEG_ESS, NEG_SEAL, NEG_SIGN, NEG_NTLM, NEG_128] {
-        if a.flags & needed == 0 {
+        // (a flag the CHALLENGE itself did not carry cannot be demanded back: hostile-server cases of C01)
+        if challenge.flags & needed != 0 && a.flags & needed == 0 {
             return Err(format!("flags: AUTHENTICATE NegotiateFlags {:#010x} lack {:#010x}", a.flags, needed));
         }
     }
